@@ -1,0 +1,11 @@
+//go:build verif
+
+package wire
+
+import "sync/atomic"
+
+// VerifSetRequestIDCounter positions the connection's request id generator (verification harness only): the next
+// request issued by the client carries id v.
+func (c *ClientConn) VerifSetRequestIDCounter(v uint32) {
+	atomic.StoreUint32(&c.idGenerator.currentValue, v)
+}
